@@ -212,7 +212,13 @@ func VerifyYouVersionState(prev, curr *types.Header) (err error) {
 }
 
 func (bc *BlockChain) VerifyYouVersionState(chain types.Blocks) (int, error) {
-	firstParent := bc.GetHeaderByNumber(chain[0].NumberU64() - 1)
+	// The first block must be checked against its real parent, which on a fork
+	// is not the canonical block of that height. (An unknown parent is reported
+	// by the import itself; the canonical block then only keeps the old result.)
+	firstParent := bc.GetHeader(chain[0].ParentHash(), chain[0].NumberU64()-1)
+	if firstParent == nil {
+		firstParent = bc.GetHeaderByNumber(chain[0].NumberU64() - 1)
+	}
 	if firstParent == nil {
 		return 0, consensus.ErrUnknownAncestor
 	}
@@ -231,7 +237,10 @@ func (bc *BlockChain) VerifyYouVersionState(chain types.Blocks) (int, error) {
 }
 
 func (bc *BlockChain) VerifyYouVersionState2(chain []*types.Header) (int, error) {
-	firstParent := bc.GetHeaderByNumber(chain[0].Number.Uint64() - 1)
+	firstParent := bc.GetHeader(chain[0].ParentHash, chain[0].Number.Uint64()-1)
+	if firstParent == nil {
+		firstParent = bc.GetHeaderByNumber(chain[0].Number.Uint64() - 1)
+	}
 	if firstParent == nil {
 		return 0, consensus.ErrUnknownAncestor
 	}
